@@ -411,7 +411,7 @@ func c11Copies(c *core.Ctx, k *core.Case) {
 // behave exactly as it does alone; working storage that the operations share behind the scenes
 // (a package-level scratch buffer) mixes one counter's octets into another's.
 func c11ConcurrentPrivate(c *core.Ctx, k *core.Case) {
-	g, steps := int(k.I[1]), int(k.I[2])
+	g, steps := int(k.I[1]), raceScale(int(k.I[2]))
 	cnt := make([]security.Count, g)
 	model := make([]uint32, g)
 	rs := make([]*prng.Rand, g)
@@ -510,7 +510,7 @@ func init() {
 			"states are reached through the public Set(overflow, sqn); the unexported field is never written directly",
 			"bits 24..31 of the internal word are unobservable and not judged",
 		},
-		Oracles: map[string]func(*core.Ctx, *core.Case){"history": c11History, "sweep": c11Sweep, "blind-seq": c11BlindSeq, "blind-enum": c11BlindEnum, "blind-runs": c11BlindRuns, "copies": c11Copies, "concurrent-private": c11ConcurrentPrivate, "cold-concurrent": coldConcurrent},
+		Oracles: map[string]func(*core.Ctx, *core.Case){"cold-entries": coldEntries, "history": c11History, "sweep": c11Sweep, "blind-seq": c11BlindSeq, "blind-enum": c11BlindEnum, "blind-runs": c11BlindRuns, "copies": c11Copies, "concurrent-private": c11ConcurrentPrivate, "cold-concurrent": coldConcurrent},
 		Exhaustive: func(tier string) (bool, string) {
 			return true, "the increment relation and the value/overflow/sqn identity are checked from all 2^24 states; operation sequences are sampled"
 		},
@@ -616,6 +616,7 @@ func init() {
 				}
 			}})
 		}
+		us = append(us, coldEntryUnits(tier, "security.Count", "count")...)
 		return us
 	}
 	core.Register(p)
